@@ -57,6 +57,12 @@ pub fn find_events(kind: Kind, vseed: u64, n_seeds: u64, words_per_seed: u64, ke
                         } else if w == u32::MAX {
                             push(i, "all-ones word", w as u64, &mut out);
                         }
+                        if m.last_increment == 0 {
+                            push(i, "step whose table increment is zero", w as u64, &mut out);
+                        }
+                        if m.last_index_word >> 8 == 0 {
+                            push(i, "step whose h-index word has its upper 24 bits zero", w as u64, &mut out);
+                        }
                         if (w & 0xff) == (prev & 0xff) {
                             run_low += 1;
                             if run_low == 4 {
@@ -123,7 +129,7 @@ pub fn events_for(kind: Kind, vseed: u64, thorough: bool) -> (Vec<Event>, u64) {
     let n_seeds: u64 = if thorough { 1 << 16 } else { 1 << 14 };
     let words_per_seed: u64 = 1 << 20;
     let dir = std::env::var("VERIF_CACHE").unwrap_or_else(|_| "/verif/harness/target".to_string());
-    let path = format!("{}/rare-{:?}-{}-{}.json", dir, kind, vseed, n_seeds);
+    let path = format!("{}/rare2-{:?}-{}-{}.json", dir, kind, vseed, n_seeds);
     if let Ok(t) = std::fs::read_to_string(&path) {
         if let Ok(v) = serde_json::from_str::<serde_json::Value>(&t) {
             if let Some(a) = v.get("events").and_then(|e| e.as_array()) {
@@ -155,6 +161,8 @@ fn intern(s: &str) -> &'static str {
         "zero word",
         "all-ones word",
         "four successive words with equal low bytes",
+        "step whose table increment is zero",
+        "step whose h-index word has its upper 24 bits zero",
         "word with a zero upper half",
         "word with a zero lower half",
         "word with equal halves",
